@@ -3,7 +3,7 @@
 # check of the property it breaks, expects a VIOLATION (exit 1), and reverts. Not a manifest command.
 cd /verif
 fail=0
-for d in seeded/*/; do
+for d in /verif/seeded/*/; do
     id=$(basename $d)
     prop=$(python3 -c "import json;print(json.load(open('$d/meta.json'))['property'])")
     if ! git -C /repo apply --check $d/patch.diff 2>/dev/null; then echo "$id: patch does not apply"; fail=1; continue; fi
